@@ -1,3 +1,4 @@
+import datetime
 from abc import abstractmethod
 from typing import Callable, Any, Iterable
 
@@ -39,7 +40,8 @@ def sorter_for(sort,  # type: Sort
                ):  # type (...) -> Sorter
 
     path_ranking = lambda x: (x.original_location, str(x.deletion_date))
-    date_rankking = lambda x: x.deletion_date
+    # entries without a (valid) DeletionDate have None here: list them first
+    date_rankking = lambda x: x.deletion_date or datetime.datetime.min
     return {
         Sort.ByPath: SortFunction(path_ranking),
         Sort.ByDate: SortFunction(date_rankking),
